@@ -103,13 +103,14 @@ var harnesses = map[string]*Harness{
 		PkgDir:   zz + "h4chain",
 		TestName: "TestVerifH4",
 		Files: map[string]string{
-			zz + "h4chain/run_test.go":     "harness/h4chain/run_test.go",
-			zz + "h4chain/genesis_test.go": "harness/h4chain/genesis_test.go",
-			zz + "h4chain/author_test.go":  "harness/h4chain/author_test.go",
-			zz + "h4chain/plan_test.go":    "harness/h4chain/plan_test.go",
-			zz + "h4chain/ref_test.go":     "harness/h4chain/ref_test.go",
-			zz + "h4chain/faults_test.go":  "harness/h4chain/faults_test.go",
-			zz + "h4chain/phasec_test.go":  "harness/h4chain/phasec_test.go",
+			zz + "h4chain/run_test.go":       "harness/h4chain/run_test.go",
+			zz + "h4chain/genesis_test.go":   "harness/h4chain/genesis_test.go",
+			zz + "h4chain/author_test.go":    "harness/h4chain/author_test.go",
+			zz + "h4chain/plan_test.go":      "harness/h4chain/plan_test.go",
+			zz + "h4chain/ref_test.go":       "harness/h4chain/ref_test.go",
+			zz + "h4chain/faults_test.go":    "harness/h4chain/faults_test.go",
+			zz + "h4chain/phasec_test.go":    "harness/h4chain/phasec_test.go",
+			zz + "h4chain/transport_test.go": "harness/h4chain/transport_test.go",
 		},
 		GoMaxProcs: 2,
 	},
@@ -132,6 +133,21 @@ var harnesses = map[string]*Harness{
 }
 
 var checks = []Check{
+	{
+		Property: "C14", Harness: "h4chain", Level: "exploration",
+		Quick:      tierCfg{budget: 40, shrink: 20},
+		Thorough:   tierCfg{budget: 900, shrink: 60},
+		MaxWorkers: 6, RunTimeoutS: 120,
+		Rule:         "one evaluation = one real fuzz-protocol session (SetState with a generated genesis export and ancestry, ImportBlock with 1-3 author-built blocks incl. tickets/preimages/disputes, GetState, State, StateRoot, PeerInfo, Error) whose frames are damaged in flight 6-15 times (bit flips, byte insert/delete, length-prefix edits to 0/1/2/2^31/2^32-1/+1000, truncation + close, garbage frame, unknown message type, 0xFF runs over inner length prefixes) and delivered in tape-chosen fragments to the real stream reader Message.ReadFrom; non-trivial = session of >= 6 frames; distinct = decision tape hash",
+		Real:         []string{"internal/fuzz Message.ReadFrom and every UnmarshalBinary behind it (PeerInfo, SetState, ImportBlock, GetState, State, StateRoot, ErrorMessage)", "internal/types decoder for blocks, headers, extrinsics, state key-values, ancestry", "the node (SetState/ImportBlock/GetState) to produce the real session"},
+		Stub:         []string{"the connection = in-memory fragmenting reader (harness)", vrfStub},
+		Assumptions:  []string{"PARTIAL: only the types that travel on the fuzz-protocol wire are reached (no bare work packages); no coverage guidance - this is seeded stream-fault injection on real session traffic, not a fuzzer", "allocation is measured as the growth of runtime.MemStats.TotalAlloc across one ReadFrom call; bound 1024 x delivered bytes + 1 MiB (1024 covers the largest in-memory element per input octet on this wire: a decoder may size a sequence by its length prefix once that prefix is known not to exceed the remaining input)"},
+		LevelText:    "seeded exploration of stream faults on real session frames; oracle: no Go panic (own recover, the server's recover is not trusted) and bounded allocation per frame; evidence, not proof",
+		LevelNote:    "the process runs without a hard memory limit; hostile length prefixes are detected through the allocation counter, the pages are never touched",
+		Technique:    "deterministic simulation of the fuzz-protocol transport: seeded corruption / truncation / fragmentation of real session frames, panic and allocation oracles, tape shrinking + fresh-process replay",
+		DesignRef:    "DESIGN.md §4 H4 (transport faults), §5 C14",
+		ExpectProbes: []string{"fault:stream_bit-flip", "fault:stream_length-prefix-edit", "fault:stream_truncate-and-close", "fault:stream_garbage-frame", "fault:stream_unknown-message-type", "fault:stream_inner-length-edit", "fault:stream_fragmented_delivery", "probe:damaged_frame_rejected_with_error", "probe:damaged_frame_still_decodes"},
+	},
 	{
 		Property: "C26", Harness: "h4chain", Level: "exploration",
 		Quick:        tierCfg{budget: 50, shrink: 100},
